@@ -1541,7 +1541,8 @@ impl StorageEngine {
                 _ => return Err(StorageError::WrongType.into()),
             }
         } else {
-            return Ok(Vec::new());
+            // A missing first key is an empty set; the other keys are still type-checked
+            HashSet::new()
         };
         drop(shard_guard); // Release lock early
         
